@@ -617,7 +617,8 @@ def interval_from_guards(fn, site, expr, lo=-INF, hi=INF, match=None):
     site and compare an expression structurally equal to `expr` with a constant.
     match(node) may replace structural equality."""
     match = match or (lambda x: same_expr(x, expr))
-    for (atom, pol) in controlling_atoms(fn, site):
+    ca = controlling_atoms(fn, site)
+    for (atom, pol) in ca + ca:          # twice: `!=` refinements depend on the bounds found so far
         s = atom.strip(casts=True)
         if s.k != 'BinaryOperator' or s.op not in ('<', '>', '<=', '>=', '==', '!='):
             continue
